@@ -2,6 +2,7 @@ package fed
 
 import (
 	"bytes"
+	"context"
 	"encoding/json"
 	"net/http"
 	"net/http/httptest"
@@ -53,7 +54,12 @@ func (f *Fed) NewGateway(cfg GatewayConfig) (*pebbles.Gateway, error) {
 	opts := []pebbles.GatewayOption{
 		pebbles.WithRemoteSchemaIntrospector(sdlIntrospector{f}),
 		pebbles.WithQueryerFactory(func(ctx *planner.PlanningContext, url string) queryer.Queryer {
-			return queryer.NewMultiOpQueryer(url, mb).WithHTTPClient(client)
+			// like the gateway's default factory: bound to the context of the client request being served
+			q := queryer.NewMultiOpQueryer(url, mb).WithHTTPClient(client)
+			if ctx != nil && ctx.Request != nil && ctx.Request.Original != nil {
+				q = q.WithContext(ctx.Request.Original.Context())
+			}
+			return q
 		}),
 	}
 	opts = append(opts, cfg.Options...)
@@ -97,7 +103,11 @@ func DoRaw(g *pebbles.Gateway, contentType string, body []byte) *Response {
 		req.Header.Set("Content-Type", contentType)
 	}
 	rec := httptest.NewRecorder()
+	// like net/http: the request's context ends when the handler returns
+	cctx, cancel := context.WithCancel(req.Context())
+	req = req.WithContext(cctx)
 	g.Handler(rec, req)
+	cancel()
 	res := &Response{Status: rec.Code, Raw: rec.Body.Bytes()}
 	var m map[string]json.RawMessage
 	if err := json.Unmarshal(res.Raw, &m); err == nil {
